@@ -27,7 +27,7 @@ ASSUMPTIONS = [
     "numpy backend only; autojit / cuquantum / other backends unobserved",
 ]
 REQUIRED_MONITORS = ["value_vs_E1", "step_tensordot", "step_einsum", "step_preprocess"]
-SHARD_TIMEOUT = {"quick": 900, "thorough": 3600}
+SHARD_TIMEOUT = {"quick": 400, "thorough": 3600}
 
 
 def nshards(tier):
